@@ -371,8 +371,10 @@ def run(model: RepoModel, rep, tier: str):
                     return _flag_of(b, ENUM)
         return None
 
+    from ..model import effective_body
+    sync_body = effective_body(sync.node)
     clauses: Dict[str, List[str]] = {}
-    for st in sync.node.body:
+    for st in sync_body:
         if isinstance(st, ast.If):
             pf = pred_flag(st.test)
             sets = []
@@ -404,14 +406,14 @@ def run(model: RepoModel, rep, tier: str):
                           f"sync_event_return sets {extra} when the handler returned {trig}")
     # None leaves the combined value unchanged; final return is the global value
     key = f"{ER}::sync_event_return::None and final return"
-    first = sync.node.body[0]
+    first = sync_body[0]
     none_ok = isinstance(first, ast.If) and isinstance(first.test, ast.Compare) and isinstance(first.test.left, ast.Name) \
         and first.test.left.id == lp and isinstance(first.test.ops[0], ast.Is) and is_const(first.test.comparators[0], None) \
         and len(first.body) == 1 and isinstance(first.body[0], ast.Return) and isinstance(first.body[0].value, ast.Name) \
         and first.body[0].value.id == gp
-    last = sync.node.body[-1]
+    last = sync_body[-1]
     ret_ok = isinstance(last, ast.Return) and isinstance(last.value, ast.Name) and last.value.id == gp
-    stray = [s for s in sync.node.body if not isinstance(s, (ast.If, ast.Return, ast.Expr))]
+    stray = [s for s in sync_body if not isinstance(s, (ast.If, ast.Return, ast.Expr))]
     if none_ok and ret_ok and not stray:
         rep.holds("C17.R5", key, ER, sync.node.lineno, "None -> unchanged; returns the accumulated value; no other writes")
     else:
